@@ -9,12 +9,20 @@ appended) x payload layouts
     first-mis   the same at 2 mod 4
 x {no orphan, an unreferenced packed / sparse / array payload before or after the referenced ones}
 x {own payloads, every ordered pair of same-kind switches sharing ONE payload (kept when the inherited relative
-targets land on instruction starts)}.  Plus every method of the shipped DEX files (quick: classes.dex).
+targets land on instruction starts)}.
+Plus skeletons of <= 2 slots (thorough: 3 over a reduced alphabet) containing at least one packed-switch / sparse-switch /
+fill-array-data whose 31t offset addresses NO payload: the middle of the instruction itself, the middle of a payload
+(+2 and +4 bytes), an ordinary instruction (the final return-void), the first byte behind the code, end + 4, and 2 bytes
+before offset 0 -- x the 4 layouts x {no orphan, orphan packed payload before, orphan array payload after}.
+Plus every method of the shipped DEX files (quick: classes.dex).
 Oracle (ref/cfg.judge_c40 and judge_xrefs below), S = offsets EncodedMethod.get_instructions_idx() yields:
   every basic-block start is in S, every block end is in S or the end of the code;
   every key of a block's special_ins is in S and is a switch / fill-array-data instruction;
   for every switch / fill-array-data instruction at idx, get_special_ins(idx) IS (identity) the object the sweep
   yields at the offset the instruction encodes, and its keys/targets/data are those the generator put there;
+  if NO payload starts at the encoded offset: get_special_ins(idx) is None or the object that starts exactly there
+  (never something that starts elsewhere), and -- for encoded offsets that are 4-byte aligned -- the switch has no
+  successor besides the fall-through (no case successors borrowed from some other payload);
   every offset stored in an xref (method xref_to/xref_from, field read/write, string xref_from, new-instance /
   const-class, class xref_from) is in S of the method the xref names (after Analysis.create_xref()).
 Misaligned payloads are not well-formed Dalvik (the specification requires 4-byte alignment): violations that occur
@@ -36,6 +44,9 @@ ASSUMPTIONS = ["trusted: gen/dalvik, gen/dexgen, gen/dexread, ref/cfg.py",
                "ClassAnalysis.xrefto entries of invoke kinds carry the CALLEE method, so their offset cannot be attributed "
                "to a method: not judged; offsets inside CFG edge tuples and ExceptionAnalysis are not listed by the statement: "
                "not judged",
+               "determineNext deliberately rounds a 2-mod-4 switch offset up to the next 4-aligned offset ('skip the nop "
+               "spacer', dex/__init__.py:393-405); case successors taken from a payload found THERE although the encoded "
+               "offset addresses something else are counted (bogus_succ_off2mod4_not_judged) but not judged",
                "how determineNext resolves a misaligned payload (it adds alignment padding, the switch then has no case "
                "successors) is CFG content, not an offset the analysis reports: not judged here"]
 MANIFEST = {
@@ -53,13 +64,22 @@ MANIFEST = {
 _ME = "checks.c40"
 SPECIAL = True
 XREF = True
+ORPHANS_BOGUS = (("K", "before"), ("A", "after"))
 ORPHANS = (("K", "before"), ("K", "after"), ("S", "after"), ("A", "before"), ("A", "after"))
 
 
 def plans(ctx):
     top = 3 if ctx.thorough else 2
-    return [{"id": "layouts-n%d" % n, "n": n, "kinds": "CVNFGIKSA", "layouts": M.LAYOUTS, "orphans": ORPHANS, "shared": True}
-            for n in range(0, top + 1)]
+    p = [{"id": "layouts-n%d" % n, "n": n, "kinds": "CVNFGIKSA", "layouts": M.LAYOUTS, "orphans": ORPHANS, "shared": True}
+         for n in range(0, top + 1)]
+    # 31t offsets at which NO payload starts (inside an instruction / a payload, at an ordinary instruction, outside the code)
+    for n in (1, 2):
+        p.append({"id": "bogus-n%d" % n, "n": n, "kinds": "VGKSA", "bogus": M.BOGUS, "require_bogus": True,
+                  "layouts": M.LAYOUTS, "orphans": ORPHANS_BOGUS})
+    if ctx.thorough:
+        p.append({"id": "bogus-n3", "n": 3, "kinds": "K", "bogus": ("Kx", "Ax"), "require_bogus": True,
+                  "layouts": M.LAYOUTS, "orphans": ORPHANS_BOGUS})
+    return p
 
 
 def space(ctx):
@@ -77,8 +97,13 @@ def shards(ctx):
 
 
 def judge(acc, rm, obs, layout, ma=None, gen=True):
-    v, links = R.judge_c40(rm, obs, layout)
+    v, links, skipped = R.judge_c40(rm, obs, layout)
+    for k, n in skipped.items():
+        acc.count(k, n)
     acc.count("payload_links_checked", links)
+    for i in rm.ins:
+        if i[2] in ("switch", "array") and (rm.by_off.get(i[4]) is None or rm.by_off[i[4]][2] != "payload"):
+            acc.count("bogus_offsets_checked[%s]" % R.offset_class(rm, i[4]))
     acc.count("block_boundaries_checked", 2 * len(obs["blocks"]))
     if layout in ("misaligned", "first-mis") and links:
         acc.count("misaligned_links_checked", links)
@@ -191,6 +216,8 @@ def replay(ctx, w):
 def finalize(ctx, acc):
     for k in ["payload_links_checked", "misaligned_links_checked", "methods_with_backward_payload_link",
               "methods_with_shared_payload", "methods_with_unreferenced_payload", "xref_offsets_checked",
+              "bogus_offsets_checked[inside-instruction]", "bogus_offsets_checked[inside-payload]",
+              "bogus_offsets_checked[at-instruction]", "bogus_offsets_checked[outside-code]",
               "shipped_methods", "shipped_files_xref_swept"]:
         if not acc.extra.get(k):
             acc.harness_error("vacuity: counter %s is zero" % k)
